@@ -26,7 +26,8 @@ theorem coreEq_setQueued (st : Stream) (q : QName) (v : Bool) : CoreEq st (st.se
 macro_rules | `(tactic| core_tac) => `(tactic| exact coreEq_setQueued _ _ _)
 
 theorem coreEq_notifySend (st : Stream) : CoreEq st st.notifySend.1 := by
-  unfold Stream.notifySend; split <;> split <;> exact ⟨rfl, rfl, rfl, rfl⟩
+  unfold Stream.notifySend
+  cases h1 : st.sendTask <;> dsimp only <;> split <;> exact ⟨rfl, rfl, rfl, rfl⟩
 theorem coreEq_notifyRecv (st : Stream) : CoreEq st st.notifyRecv.1 := by
   unfold Stream.notifyRecv; split <;> exact ⟨rfl, rfl, rfl, rfl⟩
 theorem coreEq_notifyPush (st : Stream) : CoreEq st st.notifyPush.1 := by
